@@ -34,15 +34,71 @@ NOT_DECIDED = ['that the leaves-first resolution computes the best response on e
 TRAVERSALS = ['regret::expected', 'regret::optimal_deviations', 'regret::next_infoset_search']
 
 
+def role_ctx(c):
+    """context selector for the deviating / fixed role of a player node: the PlayerNum switch, the
+    const-generic switch, or the combined test `(node.num == PlayerNum::X) == PLAYER_ONE`"""
+    r = q.player_ctx(c)
+    if r is not None:
+        return r
+    if c['kind'] == 'Eq' and c.get('b') is not None:
+        for x, y in ((c['a'], c['b']), (c['b'], c['a'])):
+            xs, ys = strip_refs(x), strip_refs(y)
+            if ys[0] == 'cparam' and xs[0] == 'call' and short(xs[1]) == 'eq' and len(xs[2]) == 2:
+                sides = [strip_refs(z) for z in xs[2]]
+                const = [z for z in sides if z[0] == 'agg' and 'PlayerNum::' in z[1]]
+                num = [z for z in sides if z[0] == 'field' and z[2] == 'num']
+                if len(const) == 1 and len(num) == 1:
+                    is_one = const[0][1].split('PlayerNum::')[-1].startswith('One')
+                    # (num == One) == P on the true edge  <=>  deviating ; with Two the roles flip
+                    return ('role', c['truth'] == is_one)
+    return None
+
+
+def roles_of(cxs):
+    out = set()
+    for c in cxs:
+        if 'role' in c:
+            out.add(c['role'])
+        elif 'num' in c and 'PLAYER_ONE' in c:
+            out.add((c.get('num') == 'One') == (c.get('PLAYER_ONE') is True))
+    return out
+
+
+def dev_fields(lib):
+    """field names of the per-infoset deviation record by role (robust to renaming): the list of reached
+    nodes with their reach, the pending-descendant counter and the best continuation value"""
+    for name, adt in lib.adts.items():
+        if not name.startswith('regret::') or len(adt) != 1:
+            continue
+        fs, tys = adt[0].get('fields', []), adt[0].get('ftys', [])
+        role = {}
+        for fn_, ty in zip(fs, tys):
+            if 'Vec<(' in ty and 'f64' in ty:
+                role['nodes'] = fn_
+            elif ty == 'f64':
+                role['value'] = fn_
+            elif ty == 'usize':
+                role['pending'] = fn_
+        if len(role) == 3:
+            return role
+    return {'nodes': 'prob_nodes', 'value': 'max_utility', 'pending': 'future_nodes'}
+
+
+class Pops(list):
+    """the pop() calls of a traversal (work stack, and possibly other stacks); an item is 'the popped
+    item' when it derives from any of them"""
+
+
 def same_call(a, b):
+    if isinstance(b, Pops):
+        return a[0] == 'call' and any(x[0] == 'call' and a[3] == x[3] for x in b)
     return a[0] == 'call' and b is not None and b[0] == 'call' and a[3] == b[3]
 
 
 def pop_item(f):
-    """the (node, reach) item popped from the work stack: expression of `pop(queue) as Some`"""
-    for bi, t, e in q.calls_named(f, 'pop'):
-        return e
-    return None
+    """the (node, reach) items popped from work stacks: expressions of `pop(queue)`"""
+    out = Pops(e for bi, t, e in q.calls_named(f, 'pop'))
+    return out if out else None
 
 
 def classify_weight(f, w, popped):
@@ -196,8 +252,8 @@ def run(ctx):
             elif not has_role:
                 role = 'fixed'
             else:
-                cxs = f.contexts(bi, q.player_ctx)
-                roles = {(c.get('num') == 'One') == (c.get('PLAYER_ONE') is True) for c in cxs if 'num' in c and 'PLAYER_ONE' in c}
+                cxs = f.contexts(bi, role_ctx)
+                roles = roles_of(cxs)
                 role = 'deviating' if roles == {True} else 'fixed' if roles == {False} else 'mixed'
             rule = 'C01.reach'
             want = ['reach'] if role == 'deviating' else ['prob', 'reach']
@@ -227,17 +283,37 @@ def run(ctx):
     f = ctx.fn('lib', 'regret::optimal_deviations', 'C01.role')
     if f is not None:
         rule = 'C01.role'
-        reg = [(bi, t, e) for bi, t, e in q.calls_named(f, 'push') if 'prob_nodes' in facts.show(e[2][0])]
+        DF = dev_fields(lib)
+        reg = [(bi, t, e) for bi, t, e in q.calls_named(f, 'push') if q.find_sub(e[2][0], lambda s: s[0] == 'field' and s[2] == DF['nodes']) is not None]
         if not reg:
             ctx.anchor_lost(rule, 'optimal_deviations: registration of infoset nodes')
         for bi, t, e in reg:
-            cxs = f.contexts(bi, q.player_ctx)
-            roles = {(c.get('num') == 'One') == (c.get('PLAYER_ONE') is True) for c in cxs if 'num' in c and 'PLAYER_ONE' in c}
+            cxs = f.contexts(bi, role_ctx)
+            roles = roles_of(cxs)
             item = strip_refs(e[2][1])
             kinds, _ = classify_weight(f, item[2][1], pop_item(f)) if item[0] == 'agg' else (None, None)
             own = q.find_sub(e[2][0], lambda s: s[0] == 'index' and strip_refs(s[2])[0] == 'field' and strip_refs(s[2])[2] == 'infoset') is not None
             ctx.verdict(roles == {True} and kinds == ['reach'] and own, rule, rule + ':registration', 'a node is registered with its reach at its own infoset exactly when it belongs to the deviating player ((One, true) | (Two, false))',
                         f.where(bi), 'roles %s, weight %s, own infoset %s' % (roles, kinds, own), breaks='the best response is computed over the opponent\'s infosets')
+        # (6c) resolution queue: only infosets that were reached (have registered nodes) and have no pending
+        # later infoset are resolved — an unreached infoset would be resolved with zero nodes, leave its
+        # predecessor's pending count unchanged and queue that predecessor a second time
+        rule = 'C01.resolution-queue'
+        flt = None
+        for bi, t, e in q.calls_named(f, 'filter'):
+            cf, agg = q.closure_of(lib, e[2][1]) if len(e[2]) > 1 else (None, None)
+            if cf is not None and any(x[0] == 'field' and x[2] == DF['pending'] for bj in cf.reach for st in cf.blocks[bj]['stmts'] if st['s'] == 'assign' for x in facts.walk(cf.rvalue_expr(st['rv'], bj))):
+                flt = cf
+        if flt is None:
+            ctx.anchor_lost(rule, 'optimal_deviations: initial filter of the resolution queue')
+        else:
+            ctx.touch(flt)
+            nonempty = False
+            for bj, t, p in flt.calls():
+                if short(p) in ('is_empty', 'len') and q.find_sub(flt.call_expr(t, bj), lambda x: x[0] == 'field' and x[2] == DF['nodes']) is not None:
+                    nonempty = True
+            ctx.verdict(nonempty, rule, rule + ':reached-only', 'the initial resolution queue holds only infosets with no pending later infoset *and* at least one registered node', flt.where(0),
+                        'filter tests the registered-node list for emptiness: %s' % nonempty, breaks='an infoset never reached under the profile is resolved with zero nodes and its predecessor is queued (and resolved) twice: wrong best-response value')
         # (7) infoset value
         rule = 'C01.infoset-value'
         divs = list(e2.f64_divisions(f))
@@ -273,18 +349,44 @@ def run(ctx):
                             p = e4.try_poly(u[3])
                             if p is not None and len(p) == 1 and list(p.values()) == [1.0]:
                                 atoms = list(p)[0]
-                                mu = [a for a in atoms if a[0] == 'val' and strip_refs(a[1])[0] == 'field' and strip_refs(a[1])[2] == 'max_utility']
+                                mu = [a for a in atoms if a[0] == 'val' and strip_refs(a[1])[0] == 'field' and strip_refs(a[1])[2] == dev_fields(lib)['value']]
                                 own = mu and q.find_sub(mu[0][1], lambda s: s[0] == 'index' and strip_refs(s[2])[0] == 'field' and strip_refs(s[2])[2] == 'infoset' and q.find_sub(s[2], lambda z: same_call(z, popped)) is not None) is not None
-                                cxs = g.contexts(d[1], q.player_ctx)
-                                roles = {(c.get('num') == 'One') == (c.get('PLAYER_ONE') is True) for c in cxs if 'num' in c and 'PLAYER_ONE' in c}
+                                cxs = g.contexts(d[1], role_ctx)
+                                roles = roles_of(cxs)
                                 ok = bool(mu) and bool(own) and len(atoms) == 2 and roles == {True}
         ctx.verdict(ok, 'C01.infoset-value', 'C01.infoset-value:used-at-own-nodes', 'at a node of the deviating player the search adds (+1) * (value of that node\'s own infoset) * reach and stops', g.where(0), 'recognised: %s' % ok)
 
+    # ---------------- (6b) no stale evaluation: a memo inside the profile must be dropped by every mutator
+    rule = 'C01.no-stale-evaluation'
+    INTERIOR = ('OnceLock', 'OnceCell', 'LazyCell', 'LazyLock', 'Cell<', 'RefCell<', 'Mutex<', 'RwLock<', 'Atomic')
+    st_adt = lib.adts.get('Strategies')
+    if st_adt:
+        memo = [(n, ty) for n, ty in zip(st_adt[0].get('fields', []), st_adt[0].get('ftys', [])) if any(x in ty for x in INTERIOR)]
+        if not memo:
+            ctx.ok(rule, rule + ':no-interior-state', 'the profile carries no interior-mutable cache, so get_info() is a function of the probabilities it holds now', '', 'fields: %s' % st_adt[0].get('fields'))
+        for n, ty in memo:
+            for g in lib.non_test_fns():
+                if g.is_closure or not g.j.get('impl_self', '').startswith('Strategies') and 'Strategies::<' not in g.name:
+                    continue
+                if g.argc < 1 or not g.locals[1]['ty'].startswith('&mut Strategies'):
+                    continue
+                writes = any(pl[0] == 'field' and pl[2] == n for bi, st, pl, rhs in q.stores(g)) or \
+                    any(short(p) in ('take', 'set', 'replace', 'get_mut', 'clear') and q.find_sub(g.call_expr(t, bi), lambda x: x[0] == 'field' and x[2] == n) is not None for bi, t, p in g.calls())
+                ctx.touch(g)
+                ctx.verdict(writes, rule, '%s:%s:%s' % (rule, n, q.top(g.name).split('::')[-1]), 'a method that mutates the profile resets the cached evaluation held in `%s`' % n, g.where(0),
+                            'field `%s: %s` written / reset by this &mut self method: %s' % (n, ty[:40], writes), breaks='get_info() after truncate() reports the utilities and regrets of the profile before truncation')
     # ---------------- (6) get_info wiring
     rule = 'C01.get-info-wiring'
     f = ctx.fn('lib', "Strategies::<'a, I, A>::get_info", rule)
     if f is not None:
+        host = f
         rc = [(bi, t, e) for bi, t, e in q.calls_named(f, 'regret') if e[1].startswith('regret::')]
+        if not rc:
+            for c in lib.closures_of(f):
+                rc = [(bi, t, q.resolve_captures(lib, c, e)) for bi, t, e in q.calls_named(c, 'regret') if e[1].startswith('regret::')]
+                if rc:
+                    host = c
+                    break
         if not rc:
             ctx.anchor_lost(rule, 'get_info: regret::regret call')
         for bi, t, e in rc:
@@ -303,9 +405,9 @@ def run(ctx):
                     pair &= q.tags(sp[2][0]) == {k} and q.tags(sp[2][1]) == {k} and 'probs' in facts.show(sp[2][0]) and 'player_infosets' in facts.show(sp[2][1])
                 ok = good and pair
                 detail = 'infoset tables at positions %s; split of player k\'s probabilities by player k\'s infosets: %s' % ([sorted(x) for x in ti], pair)
-            ctx.verdict(ok, rule, rule, 'get_info evaluates (tables of player 1, 2) with (probabilities of player 1 split by player 1\'s infosets, same for 2)', f.where(bi), detail, breaks='a player\'s probabilities are interpreted with the other player\'s infoset sizes')
+            ctx.verdict(ok, rule, rule, 'get_info evaluates (tables of player 1, 2) with (probabilities of player 1 split by player 1\'s infosets, same for 2)', host.where(bi), detail, breaks='a player\'s probabilities are interpreted with the other player\'s infoset sizes')
             root_ok = 'root' in facts.show(e[2][0]) and 'chance_infosets' in facts.show(e[2][1])
-            ctx.verdict(root_ok, rule, rule + ':root-and-chance', 'evaluation starts at the game\'s root with the game\'s chance table', f.where(bi), 'found: %s' % root_ok)
+            ctx.verdict(root_ok, rule, rule + ':root-and-chance', 'evaluation starts at the game\'s root with the game\'s chance table', host.where(bi), 'found: %s' % root_ok)
         # StrategiesInfo fields
         for bi, st, fields in q.struct_sites(f, 'StrategiesInfo'):
             u, r = strip_refs(fields.get('util', ('other',))), strip_refs(fields.get('regrets', ('other',)))
